@@ -11,11 +11,12 @@ Definition C01_full_statement : Prop :=
   forall fuel hs acts os, under_core fuel hs acts = Some os -> C01_ok (true, false, c_done, hs, acts, os) = true.
 
 (* Proved part 1 (every fuel, heap, command): run_until_settled leaves the command's own ready and
-   spawn queues empty unless the command was aborted. *)
+   spawn queues empty unless the command is aborted (by the shell before the call, or by one of its own
+   tasks during it). *)
 Theorem C01_settle_quiescent_partial : forall fuel cid H H',
-  cid < length (cmds H) -> was_aborted cid H = false ->
-  settle fuel cid H = Some H' ->
-  c_ready (gcmd cid H') = [] /\ c_spawnq (gcmd cid H') = [] /\ was_aborted cid H' = false.
+  cid < length (cmds H) ->
+  settle fuel cid H = Some H' -> was_aborted cid H' = false ->
+  c_ready (gcmd cid H') = [] /\ c_spawnq (gcmd cid H') = [].
 Proof. exact settle_quiescent. Qed.
 
 (* Proved part 2: a call never loses or reorders applied events - the log after any call extends the
@@ -23,7 +24,7 @@ Proof. exact settle_quiescent. Qed.
 Theorem C01_log_extends : forall fuel0 fuel hs k k', process fuel0 fuel hs k = Some k' -> extends (k_log k) (k_log k').
 Proof. exact process_log. Qed.
 
-(* Proved part 3: no runtime step touches the abort bookkeeping or the identity of existing commands
+(* Proved part 3: no runtime step removes an abort or changes the identity of existing commands
    (the frame theorem instantiated; every function of the runtime, every fuel). *)
 Theorem C01_frame_meta : forall fuel, spec Rmeta (funs fuel).
 Proof. exact frame_meta. Qed.
